@@ -19,9 +19,10 @@ Inductive rres (Q : Type) :=
 | RCrashed                     (* RuntimeError("protocol.build_packet_from_datagram() crashed") *)
 | RNoData                      (* transport.recv found nothing: TimeoutError *)
 | RSockError                   (* the transport reported an asynchronous socket error (ICMP -> error_received) here *)
-| RCancelled.                  (* the receive was cancelled while nothing was available: nothing consumed *)
+| RCancelled                   (* the receive was cancelled while nothing was available: nothing consumed *)
+| RSendFailed.                 (* send_packet: RuntimeError("protocol.make_datagram() crashed"), nothing sent *)
 Arguments RPacket {Q}. Arguments RParseError {Q}. Arguments RCrashed {Q}. Arguments RNoData {Q}.
-Arguments RSockError {Q}. Arguments RCancelled {Q}.
+Arguments RSockError {Q}. Arguments RCancelled {Q}. Arguments RSendFailed {Q}.
 
 (* what sits in the receive queue of the transport, in order: datagrams, and the positions at which an asynchronous
    socket error was reported (asyncio: error_received puts the exception and a marker between the datagrams) *)
@@ -33,6 +34,9 @@ Section Datagram.
   Variable deserialize : bytes -> ores P.
   Variable to_dto : Q -> P.                  (* converter.convert_to_dto_packet; identity without converter *)
   Variable from_dto : P -> option Q.         (* converter.create_from_dto_packet; None = PacketConversionError *)
+  Variable bufsize : N.                      (* size given to recv(2): MAX_DATAGRAM_BUFSIZE for the blocking transport (or the
+                                                transport's max_datagram_size), 256 KiB inside asyncio; recv silently drops
+                                                the bytes of a datagram that do not fit *)
   Variable drop_empty : bool.                (* the transport's send silently ignores an empty payload: true for the
                                                 asyncio backend on CPython < 3.13 (DatagramTransport.sendto returns
                                                 early on `not data`), false for the blocking socket transport *)
@@ -49,9 +53,13 @@ Section Datagram.
   (* a connected datagram socket: what the peer sent us and has not been received yet; what we sent *)
   Record transport := { inq : list item; outq : list bytes }.
 
+  (* socket.recv(bufsize) on a datagram socket *)
+  Definition trunc (d : bytes) : bytes :=
+    if (N.of_nat (length d) <=? bufsize)%N then d else firstn (N.to_nat bufsize) d.
+
   (* one queue item gives exactly one outcome *)
   Definition item_result (i : item) : rres Q :=
-    match i with IData d => build_packet_from_datagram d | IErr => RSockError end.
+    match i with IData d => build_packet_from_datagram (trunc d) | IErr => RSockError end.
 
   Definition transport_send (t : transport) (d : bytes) : transport :=
     match d with
@@ -78,7 +86,8 @@ Section Datagram.
     end.
 
   (* OpArrive: the peer sends us a datagram; OpSockError: the kernel reports an asynchronous error on the socket *)
-  Inductive op := OpSend (q : Q) | OpRecv | OpArrive (d : bytes) | OpRecvCancel | OpSockError.
+  (* OpSendFail: send_packet of a packet whose serialization raises: RuntimeError, nothing is sent, nothing remembered *)
+  Inductive op := OpSend (q : Q) | OpRecv | OpArrive (d : bytes) | OpRecvCancel | OpSockError | OpSendFail.
 
   Definition do_op (t : transport) (o : op) : transport * list (rres Q) :=
     match o with
@@ -87,6 +96,7 @@ Section Datagram.
     | OpArrive d => ({| inq := inq t ++ [IData d]; outq := outq t |}, [])
     | OpRecvCancel => let '(t', r) := recv_packet_cancelled t in (t', [r])
     | OpSockError => ({| inq := inq t ++ [IErr]; outq := outq t |}, [])
+    | OpSendFail => (t, [RSendFailed])
     end.
 
   Fixpoint do_ops (t : transport) (os : list op) : transport * list (rres Q) :=
